@@ -71,6 +71,7 @@ type checkCfg struct {
 	crashIsMine  bool // any hard crash during the run is a violation of this property
 	binName      string
 	buildFlags   []string
+	points       bool // thorough tier adds statement-level collection points
 }
 
 var checkCfgs = map[string]checkCfg{
@@ -87,7 +88,7 @@ var checkCfgs = map[string]checkCfg{
 	"C13": {engine: "world", quickRuns: 16000, thoroughRuns: 400000},
 	"C14": {engine: "world", quickRuns: 8000, thoroughRuns: 200000},
 	"C15": {engine: "world", quickRuns: 8000, thoroughRuns: 200000},
-	"C18": {engine: "world", quickRuns: 3000, thoroughRuns: 60000, env: []string{"GODEBUG=clobberfree=1"}, crashIsMine: true, binName: "sim-checkptr", buildFlags: []string{"-gcflags=all=-d=checkptr=2"}},
+	"C18": {engine: "world", quickRuns: 3000, thoroughRuns: 60000, env: []string{"GODEBUG=clobberfree=1"}, crashIsMine: true, binName: "sim-checkptr", buildFlags: []string{"-gcflags=all=-d=checkptr=2"}, points: true},
 	"C10": {engine: "node", quickRuns: 4000, thoroughRuns: 120000},
 	"C16": {engine: "race", quickRuns: 320, thoroughRuns: 30000},
 	"C17": {engine: "heap", quickRuns: 144, thoroughRuns: 576},
@@ -157,6 +158,7 @@ type batchResult struct {
 type crashRec struct {
 	run    int
 	stderr string
+	points []PointAct
 }
 
 func newBatchResult(domain string) *batchResult {
@@ -240,7 +242,15 @@ func (c *checker) runBatch(bin string, domain string, N int, extraEnv []string) 
 				// abnormal exit: the journal names the run that killed the worker
 				crashed := -1
 				jl := readLines(jr)
+				var crashPoints []PointAct
 				for i := len(jl) - 1; i >= 0; i-- {
+					if strings.HasPrefix(jl[i], "POINTS ") && crashPoints == nil {
+						var n int
+						fmt.Sscanf(jl[i], "POINTS %d", &n)
+						if f := strings.SplitN(jl[i], " ", 3); len(f) == 3 {
+							json.Unmarshal([]byte(f[2]), &crashPoints)
+						}
+					}
 					if strings.HasPrefix(jl[i], "BEGIN ") {
 						fmt.Sscanf(jl[i], "BEGIN %d", &crashed)
 						break
@@ -253,7 +263,7 @@ func (c *checker) runBatch(bin string, domain string, N int, extraEnv []string) 
 					mu.Unlock()
 					return
 				}
-				br.crashes = append(br.crashes, crashRec{run: crashed, stderr: tail(stderr.String(), 4000)})
+				br.crashes = append(br.crashes, crashRec{run: crashed, stderr: tail(stderr.String(), 4000), points: crashPoints})
 				// keep what the worker had flushed; resume from its flush point, skipping the killer
 				skips = append(skips, fmt.Sprint(crashed))
 				if ok {
@@ -468,6 +478,14 @@ func minimise(tr *Trace, want *Violation, test func(*Trace) *Violation, budget t
 			break
 		}
 	}
+	// 4b. drop statement-point actions
+	for pi := len(cur.Points) - 1; pi >= 0; pi-- {
+		cand := cloneTrace(cur)
+		cand.Points = append(append([]PointAct{}, cur.Points[:pi]...), cur.Points[pi+1:]...)
+		if still(cand) {
+			cur = cand
+		}
+	}
 	// 5. simpler value type
 	for ti := range cur.Trees {
 		if cur.Trees[ti].Val != "i64" {
@@ -626,18 +644,19 @@ func (c *checker) runsFor() int {
 // handleViolations: confirm, minimise, write replay, replay once, print.
 func (c *checker) handleViolations(bin string, br *batchResult, extraEnv []string) {
 	type cand struct {
-		run  int
-		v    *Violation
-		size int
+		run    int
+		v      *Violation
+		size   int
+		points []PointAct
 	}
 	var cands []cand
 	for _, r := range br.records {
 		if r.Violation != nil {
-			cands = append(cands, cand{r.Run, r.Violation, r.Steps})
+			cands = append(cands, cand{r.Run, r.Violation, r.Steps, r.Points})
 		}
 	}
 	for _, cr := range br.crashes {
-		cands = append(cands, cand{cr.run, nil, 0})
+		cands = append(cands, cand{cr.run, nil, 0, cr.points})
 	}
 	if len(cands) == 0 {
 		return
@@ -664,6 +683,7 @@ func (c *checker) handleViolations(bin string, br *batchResult, extraEnv []strin
 			continue
 		}
 		tr := genTrace(c.prop, c.seed, cd.run, o)
+		tr.Points = cd.points
 		cv := c.execChild(bin, tr, extraEnv, 5*time.Minute)
 		want := cv.Violation
 		if want == nil {
@@ -817,6 +837,25 @@ func (c *checker) worldCheck() (map[string]any, int, int) {
 	}
 	// determinism self-check: re-execute about 1% of the runs in fresh processes
 	c.selfCheck(bin, br, env)
+
+	// thorough tier of C18: collections at statement points inside operations
+	pointsInfo := map[string]any{"enabled": false}
+	if c.cfg.points && (c.tier == "thorough" || os.Getenv("VERIF_POINTS_QUICK") != "") {
+		pbin, ok, info := c.buildInstrumented(c.cfg.binName+"-points", c.cfg.buildFlags)
+		if !ok {
+			pointsInfo["fallback"] = "statement points unavailable, step-boundary events only: " + info
+			c.logf("statement points unavailable: %s", info)
+		} else {
+			penv := append(append([]string{}, env...), "VERIF_POINTS=1")
+			pb := c.runBatch(pbin, "main", max(200, N/4), penv)
+			c.handleViolations(pbin, pb, penv)
+			pointsInfo = map[string]any{"enabled": true, "instrumenter": info, "runs": pb.runs, "point_events_fired": pb.events, "points_reached_total": pb.probes["points_reached_total"], "runs_with_points": pb.probes["point_runs"]}
+			br.runs += pb.runs
+			br.steps += pb.steps
+			br.records = append(br.records, pb.records...)
+		}
+	}
+	cov["statement_points"] = pointsInfo
 
 	distinct := map[uint64]bool{}
 	nontrivial := 0
@@ -1142,4 +1181,44 @@ func (c *checker) raceCheck() (map[string]any, int, int) {
 		"simulated": []string{"the choice of which goroutine runs next (baton order from the trace)"},
 	}
 	return cov, total, nontrivial
+}
+
+
+// buildInstrumented makes a scratch copy of /repo's current tree with a
+// VerifPoint call before every statement, builds the harness against it and
+// removes the copy again. Failure is not fatal: the caller falls back to
+// step-boundary events.
+func (c *checker) buildInstrumented(name string, flags []string) (string, bool, string) {
+	inst := filepath.Join(rootDir, ".build", "instrument")
+	cmd := exec.Command(goTool(), "build", "-o", inst, ".")
+	cmd.Dir = filepath.Join(rootDir, "instrument")
+	cmd.Env = goEnv()
+	if out, err := cmd.CombinedOutput(); err != nil {
+		return "", false, "instrumenter does not build: " + tail(string(out), 500)
+	}
+	copyDir, err := os.MkdirTemp("", "verif-inst-")
+	if err != nil {
+		return "", false, err.Error()
+	}
+	defer os.RemoveAll(copyDir)
+	out, err := exec.Command(inst, "/repo", copyDir).CombinedOutput()
+	if err != nil {
+		return "", false, "instrumenting failed: " + tail(string(out), 500)
+	}
+	summary := strings.TrimSpace(string(out))
+	mod := "module verifsim\n\ngo 1.24.0\n\nrequire (\n\tgithub.com/Clement-Jean/go-art v0.0.0\n\tgolang.org/x/text v0.23.0\n)\n\nreplace github.com/Clement-Jean/go-art => " + copyDir + "\n"
+	modfile := filepath.Join(rootDir, ".build", name+".mod")
+	os.WriteFile(modfile, []byte(mod), 0o644)
+	sum, _ := os.ReadFile("/repo/go.sum")
+	os.WriteFile(filepath.Join(rootDir, ".build", name+".sum"), sum, 0o644)
+	bin := filepath.Join(rootDir, ".build", name)
+	args := append([]string{"build", "-modfile=" + modfile, "-tags", "verif verifpoints"}, flags...)
+	args = append(args, "-o", bin, ".")
+	b := exec.Command(goTool(), args...)
+	b.Dir = filepath.Join(rootDir, "sim")
+	b.Env = goEnv()
+	if out, err := b.CombinedOutput(); err != nil {
+		return "", false, "harness does not build against the instrumented copy: " + tail(string(out), 800)
+	}
+	return bin, true, summary
 }
